@@ -604,6 +604,13 @@ func part1(r *ev.Run) {
 			jobs = append(jobs, func() { s.forms(r, frng) })
 		}
 	}
+	sdJobs, ok := stepDelJobs(r)
+	if !ok {
+		return
+	}
+	for _, j := range sdJobs {
+		jobs = append(jobs, j)
+	}
 	ch := make(chan job, len(jobs))
 	for _, j := range jobs {
 		ch <- j
@@ -640,6 +647,7 @@ func part1(r *ev.Run) {
 	r.Require("delivery", "dependency-order", "shuffled")
 	requireExpiry(r)
 	requireMultiDel(r)
+	requireStepDel(r)
 	requireForms(r)
 	if r.Thorough() {
 		r.Require("store_features", "share-deleted-twice-one-undone", "share-T-claim", "share-T-permanode")
